@@ -41,8 +41,8 @@ def run(ck):
     # ---- O1
     fn = S.send
     g = S.g(fn)
-    c_init = [n for n in fn.calls(RP + "::init")]
-    c_rot = [n for n in fn.calls(RP + "::rotateIfNeeded") if arg_is_param(n, 0, fn, 0)]
+    c_init = [n for n in S.calls_to(fn, "init")]
+    c_rot = [n for n in S.calls_to(fn, "rotateIfNeeded") if arg_is_param(n, 0, fn, 0)]
     c_wr = [n for n in fn.calls() if name_is(n.get("callee"), ("send",)) and n.get("qualified") and arg_is_param(n, 0, fn, 0) and skip_copies(n.get("obj")).get("k") == "this"]
     if not (c_init and c_rot and c_wr):
         ck.ob("C05-O1", sitestr(fn), False, "send() no longer calls init/rotateIfNeeded/base send (%d/%d/%d)" % (len(c_init), len(c_rot), len(c_wr)), key="RotatingFileSink::send|missing-step")
@@ -80,6 +80,30 @@ def run(ck):
         ok = ws not in g.live(g.projector(dev_atom(False)))
         ck.ob("C05-O2", sitestr(fn, w), ok, "without a device nothing is dereferenced", key="IODeviceSink::send|null-device")
         buf = deref_local(fn, w["args"][0]) if w.get("args") else None
+        b0 = skip_copies(w["args"][0]) if w.get("args") else None
+        if isinstance(b0, dict) and b0.get("k") == "ref" and b0.get("dk") == "local" and skip_copies(buf).get("id") == b0.get("id"):
+            # the record is built in a named buffer step by step: initialiser, then appends (straight-line history)
+            try:
+                hist = var_history(fn, g, b0["decl"])
+            except AnalysisBroken:
+                hist = None
+            if hist:
+                pieces = []
+                okh = True
+                for kind, node, rhs in hist:
+                    if kind == "init":
+                        pieces.append(rhs)
+                    elif kind == "call" and is_call(node, ("QByteArray::append", "QByteArray::push_back", "QByteArray::operator+=")):
+                        pieces.append(node)
+                    elif kind == "assign":
+                        pieces.append(rhs)
+                    elif kind == "use":
+                        continue
+                    else:
+                        okh = False
+                if okh and pieces:
+                    # a synthetic concatenation node so that the same counting applies
+                    buf = {"id": -1, "k": "initlist", "els": [p_ for p_ in pieces if isinstance(p_, dict)]}
         nl = [x for x in walk(buf) if const_str(x) == "\n" or (x.get("k") == "char" and x.get("v") == 10)]
         others = [x for x in walk(buf) if x.get("k") in ("str", "qstr", "char") and x not in nl and not (x.get("k") == "str" and const_str(x) == "\n")]
         fm = [x for x in walk(buf) if is_call(x, LM + "::formattedMessage") and obj_is_param(skip_copies(x), fn, 0)]
@@ -155,7 +179,7 @@ def allowed_destructive(S, f, n, k):
         src = deref_local(f, a[0])
         dst = deref_local(f, a[1])
         oks = is_call(src, ("QFile::fileName", "QFileDevice::fileName")) and S.is_active_file(skip_copies(src).get("obj"))
-        okd = is_call(dst, RP + "::generateRotatedFileName")
+        okd = isinstance(skip_copies(dst), dict) and skip_copies(dst).get("k") == "call" and skip_copies(dst).get("fn") == S.m["generateRotatedFileName"].id
         if oks and okd:
             return True, "active file -> generateRotatedFileName(...)"
         return False, "rename(%s -> %s)" % (describe(src)[:40], describe(dst)[:40])
@@ -195,7 +219,7 @@ def allowed_destructive(S, f, n, k):
         if elem_obj is not None:
             lst = container_origin(f, skip_copies(elem_obj))
             lst = deref_local(f, lst)
-            if is_call(lst, RP + "::findRotatedFiles"):
+            if isinstance(skip_copies(lst), dict) and skip_copies(lst).get("k") == "call" and skip_copies(lst).get("fn") == S.m["findRotatedFiles"].id:
                 return True, "an element of findRotatedFiles()"
         return False, "remove(%s)" % describe(v)
     return False, "%s in %s is not on the allow-list" % (k, short)
